@@ -72,7 +72,7 @@ CLASS_PARENT = {
     # containers / builtins
     "tuple": "object", "list": "object", "deque": "object", "dict": "object", "str": "object", "bytes": "object",
     "set": "object", "range": "object", "UserSequence": "object", "function": "object", "code": "object",
-    "frame": "object", "method": "object", "partial": "object", "classmethod": "object", "staticmethod": "object",
+    "frame": "object", "method": "object", "builtin_method": "object", "partial": "object", "classmethod": "object", "staticmethod": "object",
     "generator": "object", "coroutine": "object", "async_generator": "object", "module": "object",
     "type": "object", "lock": "object", "cell": "object", "other": "object", "weakref": "object",
     "thread": "object", "greenlet": "object", "mappingproxy": "object", "iterator": "object",
@@ -87,7 +87,8 @@ CLASS_ALIASES = {
     "types.FrameType": "frame", "FrameType": "frame", "types.CoroutineType": "coroutine", "CoroutineType": "coroutine",
     "types.GeneratorType": "generator", "GeneratorType": "generator",
     "types.AsyncGeneratorType": "async_generator", "AsyncGeneratorType": "async_generator",
-    "types.MethodType": "method", "MethodType": "method", "types.FunctionType": "function", "FunctionType": "function",
+    "types.MethodType": "method", "MethodType": "method", "types.BuiltinMethodType": "builtin_method", "types.BuiltinFunctionType": "builtin_method",
+    "types.FunctionType": "function", "FunctionType": "function",
     "types.CodeType": "code", "CodeType": "code", "functools.partial": "partial",
     "collections.abc.Sequence": "Sequence", "collections.deque": "deque", "threading.Thread": "thread",
 }
